@@ -44,6 +44,11 @@ type Session struct {
 	Panic   string    `json:"panic"`
 }
 
+// MidCall[i]: the context of consumer call i is live when the call starts and ends while the library is inside the source
+// (the first source asked during that call cancels it). Recorded like an expired context: the call may fail with the
+// context's error or deliver, and nothing may be lost either way.
+var MidCall []bool
+
 // SrcIgnoreCtx: the sources of the sessions recorded from now on do not look at their context
 var SrcIgnoreCtx bool
 
@@ -169,7 +174,19 @@ func RunStream(c Comb, p Params, script [][]Step, expired []bool, stopOuts int) 
 				ctx = dead
 				call.Ctx = 1
 			}
+			if i < len(MidCall) && MidCall[i] {
+				mc, mcancel := context.WithCancel(context.Background())
+				for _, sr := range src {
+					sr.OnCall = mcancel
+				}
+				ctx = mc
+				call.Ctx = 1
+				defer mcancel()
+			}
 			v, err := st.Next(ctx)
+			for _, sr := range src {
+				sr.OnCall = nil
+			}
 			switch {
 			case err == nil:
 				call.K, call.V = 0, unshift(v)
